@@ -75,6 +75,11 @@ func getOffset(k []byte) int64 {
 // allow reads to be performed correctly.
 func (t *TFile) trackWrite(offset int64, length int64) {
 
+	if length <= 0 {
+		// nothing is covered by an empty write
+		return
+	}
+
 	start, end := getFileRange(offset, length)
 
 	// Lock to protect radix tree, reads can continue.
@@ -94,42 +99,39 @@ func (t *TFile) trackWrite(offset int64, length int64) {
 		return
 	}
 
+	// Markers are walked in offset order. They alternate start, end, start, ... and the ranges they
+	// delimit neither overlap nor touch: this is kept so by the cases below.
 	fn := func(k []byte, v interface{}) bool {
 		isStart := v.(bool)
-		isEnd := !isStart
 		key := getOffset(k)
 
-		deleteKey := func() {
-			if key <= end {
+		switch {
+		case key < start:
+			// start falls inside a previous range exactly when the last marker before it is a start
+			insertStart = !isStart
+			return !terminate
+		case key == start:
+			// a range starting here already, or a range ending here which this write extends
+			if !isStart {
 				txn.Delete(k)
 			}
-		}
-		switch {
-		case isStart && (key == start):
 			insertStart = false
 			return !terminate
-		case isStart && (key < start):
-			// Only interim keys need deleting
+		case key < end:
+			// interim markers are covered by this write
+			txn.Delete(k)
 			return !terminate
-		case isStart && (key > start):
-			deleteKey()
-			return !terminate
-		case isEnd && (key < start):
-			// Previous end hit and can be ignored, process next key
-			return !terminate
-		case isEnd && (key > start):
-			// There is an end that is after start and no other key in the range.
-			// Skip inserting start, previous start will cover the range.
-			insertStart = false
-			// This key might need deleting and process other keys
-			if key >= end {
-				insertEnd = false
-				return terminate
+		case key == end:
+			// a range ending here already, or a range starting here which extends this write
+			if isStart {
+				txn.Delete(k)
 			}
-			deleteKey()
-			return !terminate
+			insertEnd = false
+			return terminate
 		default:
-			return !terminate
+			// end falls inside a next range exactly when the first marker after it is an end
+			insertEnd = isStart
+			return terminate
 		}
 	}
 
